@@ -249,7 +249,9 @@ def generate(rng, tier, index):
     sc["py_seed"] = rng.randrange(10**9)
     sc["py_seed2"] = rng.randrange(10**9)
     sc["max_calls"] = rng.choice([10, 25, 60]) if not (tier == "thorough" and rng.random() < 0.3) else rng.choice([100, 200])
-    sc["max_steps"] = rng.choice([1, 2, 4, 8, 20, None if not real else 3])
+    sc["max_steps"] = rng.choice([1, 2, 4, 8, 20, None if not real else 3, 0 if not real else 2])
+    sc["truthy"] = rng.choice(["bool", "bool", "int", "obj"])  # how the fake callbacks spell yes / no
+    sc["reuse_pattern"] = rng.random() < 0.5  # both executions use the same builder objects
     sc["temperature"] = rng.choice([5.0, 1.0, 0.2])
     sc["decay"] = rng.choice([0.995, 0.9, 0.5])
     sc["solve_initial"] = rng.random() < 0.3
@@ -911,6 +913,15 @@ def check_value(p, cur, nxt, path, out):
             check_value(sub, None if cur is None else cur[i], nxt[i], f"{path}[{i}]", out)
 
 
+def _truthy(style, value):
+    """yes / no spelled as a bool, as 1 / 0, or as a non-empty / empty list (callers test truthiness)."""
+    if style == "int":
+        return 1 if value else 0
+    if style == "obj":
+        return ["yes"] if value else []
+    return bool(value)
+
+
 def _as(kind, result):
     """The solver callback's result in the container the scenario asks for (`is_sat, *answer = ...`
     unpacks any iterable)."""
@@ -1024,7 +1035,7 @@ def _answer_score(shape, decided):
     return sum(1 for d in decided if d)
 
 
-def exec_gen(sc, variant, res, check=True, retain=True):
+def exec_gen(sc, variant, res, check=True, retain=True, shared=None):
     """One execution of generate_problem under interference `variant`; returns a _Trace.
 
     retain=False: the harness keeps no reference to any problem object it is shown (only value
@@ -1154,13 +1165,13 @@ def exec_gen(sc, variant, res, check=True, retain=True):
             return False
         u = rec["unique_expected"] and H(solver_cfg.get("subseed", 0), rec["digest"], "uq") < 0.9
         rec["unique_said"] = u
-        return u
+        return _truthy(sc.get("truthy"), u)
 
     def fake_pretest(problem):
         note(problem, "pretest")
         meddle()
         purity("pretest callback")
-        return H(solver_cfg.get("subseed", 0), pdigest(problem), "pre") < sc["pretest"]
+        return _truthy(sc.get("truthy"), H(solver_cfg.get("subseed", 0), pdigest(problem), "pre") < sc["pretest"])
 
     def fake_penalty(problem):
         note(problem, "clue_penalty")
@@ -1200,7 +1211,15 @@ def exec_gen(sc, variant, res, check=True, retain=True):
         quiet = contextlib.redirect_stderr(io.StringIO()) if sc.get("verbose") else contextlib.nullcontext()
         try:
           with quiet:
-            pattern = build_pattern(pat_json, G)
+            if shared is not None and "pattern" in shared:
+                # the very same pattern / builder objects as in the first execution: a run must not
+                # leave anything behind in them that changes the next run with the same seed
+                pattern = shared["pattern"]
+                res.hit("perturb:second_execution_reuses_the_pattern_objects")
+            else:
+                pattern = build_pattern(pat_json, G)
+                if shared is not None:
+                    shared["pattern"] = pattern
             if sc["use_builder_pattern"]:
                 # generate_problem builds the neighbour generator itself; the initial problem is
                 # recomputed here only for the fake solver's clue counter (same PRNG state restored)
@@ -1316,7 +1335,8 @@ def _run_gen(sc, res, variants=None):
     res.hit("solver:" + sc["solver"]["type"])
     # the event log of a run must not depend on how chatty the stubs are: mute backend logs
     n_events = len(res.events)
-    a = exec_gen(sc, 0, res)
+    shared = {} if sc.get("reuse_pattern") else None
+    a = exec_gen(sc, 0, res, shared=shared)
     del res.events[n_events:]
     res.log("A", a.seq, a.result, a.gen_calls)
     for k, m in a.violations[:3]:
@@ -1342,7 +1362,7 @@ def _run_gen(sc, res, variants=None):
     if not det:
         return
     n_events = len(res.events)
-    b = exec_gen(sc, 1, res, retain=False)
+    b = exec_gen(sc, 1, res, retain=False, shared=shared)
     res.hit("perturb:second_execution_retains_no_problem_objects")
     del res.events[n_events:]
     res.log("B", b.seq, b.result, b.gen_calls)
